@@ -182,6 +182,69 @@ fn iscan(codec: &str, text: &[char]) -> Value {
     }
 }
 
+/// Other users of the codecs with their own glue code: the NSEC3 salt
+/// (Base16 behind a wrapper converter, single token), `OwnerHash::from_str`
+/// (Base32) and the SVCB `ech` parameter (Base64 converter driven by hand).
+fn users(codec: &str, text: &[char]) -> Value {
+    use domain::base::iana::Class;
+    use domain::base::rdata::ComposeRecordData;
+    use domain::base::scan::IterScanner;
+    use domain::rdata::nsec3::{Nsec3Salt, OwnerHash};
+    use domain::rdata::Nsec3param;
+    use domain::zonefile::inplace::{Entry, Zonefile};
+    use std::str::FromStr;
+    let s: String = text.iter().collect();
+    let zf_rdata = |line: String| -> Result<Vec<u8>, ()> {
+        let mut zf = Zonefile::new();
+        zf.set_default_class(Class::IN);
+        zf.extend_from_slice(line.as_bytes());
+        match zf.next_entry() {
+            Ok(Some(Entry::Record(r))) => {
+                let mut rd = Vec::new();
+                r.data().compose_rdata(&mut rd).map_err(|_| ())?;
+                Ok(rd)
+            }
+            _ => Err(()),
+        }
+    };
+    match codec {
+        "b16" => {
+            // NSEC3PARAM: alg flags iter(2) saltlen salt
+            let a = res_json(
+                zf_rdata(format!("x. 3600 IN NSEC3PARAM 1 0 10 {}\n", s)).map(|rd| rd[5..].to_vec()),
+            );
+            let mut sc = IterScanner::<_, Vec<u8>>::new(vec![
+                "1".to_string(), "0".into(), "10".into(), s.clone(),
+            ]);
+            let b = res_json(match Nsec3param::scan(&mut sc) {
+                Ok(v) if sc.is_exhausted() => {
+                    let mut rd = Vec::new();
+                    v.compose_rdata(&mut rd).unwrap();
+                    Ok(rd[5..].to_vec())
+                }
+                _ => Err(()),
+            });
+            let c = res_json(
+                Nsec3Salt::<Vec<u8>>::from_str(&s).map(|v| v.as_slice().to_vec()).map_err(|_| ()),
+            );
+            json!({"salt_zf": a, "salt_iter": b, "salt_str": c})
+        }
+        "b32" => {
+            let c = res_json(
+                OwnerHash::<Vec<u8>>::from_str(&s).map(|v| v.as_slice().to_vec()).map_err(|_| ()),
+            );
+            json!({"ohash_str": c})
+        }
+        _ => {
+            // SVCB: priority(2) target(root = 1 octet) key(2) len(2) value
+            let a = res_json(
+                zf_rdata(format!("x. 3600 IN SVCB 1 . ech={}\n", s)).map(|rd| rd[7..].to_vec()),
+            );
+            json!({"ech_zf": a})
+        }
+    }
+}
+
 fn encode(codec: &str, o: &[u8]) -> Value {
     let (a, b, c) = match codec {
         "b16" => {
@@ -220,6 +283,7 @@ fn main() {
                 if input["scan"].as_bool() == Some(true) {
                     o["scan"] = scan(&codec, &chars);
                     o["iscan"] = iscan(&codec, &chars);
+                    o["users"] = users(&codec, &chars);
                 }
                 o
             }
